@@ -436,6 +436,22 @@ func checkReplyProtocol(w *World, r *Report, pfx string) {
 				if mc := makeChanOf(w, b); mc != nil && mc.Parent() == fn {
 					chans = append(chans, mc)
 				}
+				// a request object bound as the receiver of an offered method value: the channels stored in its fields
+				if al, ok := b.(*ssa.Alloc); ok && w.messageStructs()[typeName(al.Type())] && al.Referrers() != nil {
+					for _, ref := range *al.Referrers() {
+						fa, ok := ref.(*ssa.FieldAddr)
+						if !ok || fa.Referrers() == nil {
+							continue
+						}
+						for _, r2 := range *fa.Referrers() {
+							if st, ok := r2.(*ssa.Store); ok && st.Addr == ssa.Value(fa) {
+								if mc, ok := st.Val.(*ssa.MakeChan); ok && mc.Parent() == fn {
+									chans = append(chans, mc)
+								}
+							}
+						}
+					}
+				}
 			}
 			for _, mc := range chans {
 				cls := (&classResolver{w: w, memo: map[ssa.Value]classSet{}}).classOf(mc).String()
